@@ -96,6 +96,11 @@ def edits(rng, lines, names, delay_skill):
     for _ in range(4):
         j = rng.randint(0, n)
         out.append((f"replace-suffix@{j}", lines[:j] + [rng.choice(extra) for _ in range(rng.randint(0, 5))]))
+    # change only the text of one debug line (everything after it stays: the matched prefix must stop there)
+    for j, line in enumerate(lines):
+        if line.startswith("!debug"):
+            other = "!debug \"len(viewer('running'))\"" if "running" not in line else "!debug \"viewer('clock')\""
+            out.append((f"debug-text@{j}", lines[:j] + [other] + lines[j + 1:]))
     out.append(("empty", []))
     return out
 
@@ -148,11 +153,16 @@ def unit(job, variant, pi, seed, n_edits, chain_len, want_model):
     delay_skill, names = delay_skill_of(job, variant)
     base_cmds = simlib.random_plan(rng, job, variant, rng.randint(21, 33))
     base = [command_text(c) for c in base_cmds]
+    # a few debug lines at fixed places, so that edits can change only the TEXT of a debug line
+    for pos in (2, 8, 13, 19, 24):
+        if pos < len(base) and not base[pos].startswith("!debug"):
+            base.insert(pos, "!debug \"viewer('clock')\"")
     prev_text = plan_text(job, variant, base)
     hist = run_plan(prev_text)
     all_edits = edits(rng, base, names, delay_skill)
     rng.shuffle(all_edits)
-    chosen = all_edits[:n_edits]
+    must = [e for e in all_edits if e[0].startswith("debug-text")][:3]
+    chosen = must + [e for e in all_edits if e not in must][: max(0, n_edits - len(must))]
     out["sample"] = {"job": job, "previous": base[:12], "edit": chosen[0][0], "new": chosen[0][1][:12]}
     for label, new in chosen:
         kind = label.split("@")[0]
